@@ -26,21 +26,41 @@ pub fn explore(opts: &Opts) -> Explored {
     ] {
         space.push(ConvCfg { image: img, filters: fil, sr, sc });
     }
-    let variants: Vec<u64> = if IS_F32 { vec![opts.seed % 3, (opts.seed + 1) % 3, 3, 4, 5] } else { vec![opts.seed % 3, (opts.seed + 1) % 3, 3, 4, 5, 6] };
+    // the output-size arithmetic along one axis at a time: every (length, filter length, stride) with
+    // length <= 40 (thorough 64), filter length <= 7, stride <= 9, the other axis minimal
+    let exhaustive_configs = space.len();
+    let max_len = if opts.tier == Tier::Quick { 40 } else { 64 };
+    for len in 1..=max_len {
+        for flen in 1..=len.min(7) {
+            for stride in 1..=9usize {
+                if len <= 4 && stride <= 3 {
+                    continue; // already in the exhaustive part
+                }
+                space.push(ConvCfg { image: vec![1, len, 2], filters: vec![1, 1, flen, 1], sr: stride, sc: 1 });
+                space.push(ConvCfg { image: vec![1, 2, len], filters: vec![1, 1, 2, flen], sr: 1, sc: stride });
+            }
+        }
+    }
+    // 7 and 8: positive valuations whose products resp. window sums overflow (compared with `cmp_slice_inf`)
+    let variants: Vec<u64> = if IS_F32 { vec![opts.seed % 3, (opts.seed + 1) % 3, 3, 4, 5, 7, 8] } else { vec![opts.seed % 3, (opts.seed + 1) % 3, 3, 4, 5, 6, 7, 8] };
     let local = par(opts, space.len(), |i, l| {
         let c = &space[i];
         l.states += 1;
         for &var in &variants {
+            if i >= exhaustive_configs && var != variants[0] {
+                continue;
+            }
             let case = || format!("{} val={}", c.describe(), var);
             if !l.want(&case) {
                 continue;
             }
-            let iv = vals(numel(&c.image), 0, var);
-            let fv = vals(numel(&c.filters), 1, var);
+            let val = |n: usize, salt: usize| if var >= 7 { vals_overflow(n, salt, var - 7) } else { vals(n, salt, var) };
+            let iv = val(numel(&c.image), 0);
+            let fv = val(numel(&c.filters), 1);
             let ri = T::from_f64(c.image.clone(), &iv);
             let rf = T::from_f64(c.filters.clone(), &fv);
             let op = OpK::Conv { sr: c.sr, sc: c.sc };
-            let expect = match apply_ref(&op, &[&ri, &rf]) {
+            let expect = match if var >= 7 { apply_ref_raw(&op, &[&ri, &rf]) } else { apply_ref(&op, &[&ri, &rf]) } {
                 Ok(e) => e,
                 Err(_) => {
                     l.count("skipped");
@@ -72,8 +92,11 @@ pub fn explore(opts: &Opts) -> Explored {
                     l.outcome(digest_vals(&d, &v));
                     if d != expect.dims {
                         l.violation("conv", case(), format!("dimensions {:?}, reference {:?}", d, expect.dims));
-                    } else if let Err(e) = cmp_slice(&v, &expect.x, Part::Value) {
+                    } else if let Err(e) = if var >= 7 { cmp_slice_inf(&v, &expect.x, Part::Value) } else { cmp_slice(&v, &expect.x, Part::Value) } {
                         l.violation("conv", case(), e);
+                    }
+                    if var >= 7 && expect.x.iter().any(|d| d.v.is_infinite()) {
+                        l.count("overflowing_results");
                     }
                 }
             }
